@@ -381,7 +381,8 @@ class Escape:
         if isinstance(call.func, ast.Attribute):
             a = call.func.attr
             recv = call.func.value
-            if a == "decode" and not self._ascii_safe(recv):
+            lenient = (len(call.args) >= 2 and isinstance(call.args[1], ast.Constant) and call.args[1].value in ("replace", "ignore", "backslashreplace", "surrogateescape")) or any(k.arg == "errors" and isinstance(k.value, ast.Constant) and k.value.value != "strict" for k in call.keywords)
+            if a == "decode" and not self._ascii_safe(recv) and not lenient:
                 add("UnicodeDecodeError", "strict decode of bytes that are not provably text")
             if a in ("pop", "popleft") and self._container_chain(recv):
                 if a == "popleft" or not call.args or (len(call.args) == 1 and isinstance(call.args[0], ast.Constant) and isinstance(call.args[0].value, int)):
@@ -433,6 +434,10 @@ class Escape:
                 classes = C_RAISES.get(cal[1], [])
                 if cal[1] in ("Buffer.seek", "Buffer.data_slice") and (all(self._safe_pos(f, a) for a in call.args) or self._write_side(fr)):
                     classes = []
+                if cal[1] == "Buffer.pull_bytes" and isinstance(call.func, ast.Attribute) and call.args:
+                    r = norm(call.func.value)
+                    if norm(call.args[0]) == f"{r}.capacity - {r}.tell()":
+                        classes = []  # reads exactly the bytes that remain
                 for c in classes:
                     add(c, f"C helper {cal[1]}")
             elif cal[0] == "ext":
@@ -616,7 +621,16 @@ class Escape:
         for s, c in d.terms.items():
             if c < 0 or not self._nonneg(f, syms[s]):
                 return False
-        return d.const > 0 if isinstance(op, ast.Gt) else d.const >= 0
+        if isinstance(op, ast.GtE):
+            return d.const >= 0
+        if d.const > 0:
+            return True
+        # a non-negative symbol that a dominating guard found truthy is >= 1
+        atoms = f.guard_atoms(call) + f.guard_atoms_x(call)
+        for s, c in d.terms.items():
+            if c > 0 and d.const >= 0 and ((s, True) in atoms or (f.expand(syms[s], 3), True) in atoms):
+                return True
+        return False
 
     def _truthy_from_len(self, atoms, want) -> bool:
         """`x` truthy is implied by a guard `len(x) > 0`/`len(x) == k`; `len(x) > 0` by `x` truthy"""
